@@ -352,10 +352,46 @@ def predicate13(sc, ev):
     return None
 
 
+def predicate14(sc, ev):
+    """C14 at session level: a message is reported as timed out at most once, and never when it has another outcome (an
+    attributed response, or a send_error of another kind: a message whose transmission failed was never sent); an
+    unanswered unsegmented message is reported neither before its time-to-live nor later than the keep-alive allows"""
+    ended = [e for e in ev if e[1] == 'start-ended']
+    if not ended or ended[0][2] is not None:
+        return 'start() %s' % ('still running' if not ended else 'ended with %s' % ended[0][2])
+    per = {}
+    for e in ev:
+        if e[1] == 'received' and e[2] in ('SubmitSmResp', 'GenericNack') and e[4]:
+            per.setdefault(e[4], []).append('resp')
+        elif e[1] == 'send_error' and e[2] == 'SubmitSm':
+            per.setdefault(e[3], []).append(e[4])
+    again = (sc.get('again') or {})
+    for log, outs in per.items():
+        n_to = outs.count('TimeoutError')
+        allowed = 2 if (again.get('mode') == 'same' and again.get('log') == log) else 1
+        if n_to > allowed:
+            return 'message %s was reported as timed out %d times' % (log, n_to)
+        if n_to and len(outs) > allowed:
+            return 'message %s was reported as timed out although it has another outcome: %s' % (log, outs)
+    seq_log = dict(sc.get('_seq_log', {}))
+    if not sc.get('drops') and not sc.get('stalls'):
+        for m in sc['msgs']:
+            if m['react'] != 'silent' or m['seg']:
+                continue
+            seqs = [q for q, lg in seq_log.items() if lg == m['log']]
+            t_put = [e[0] for e in ev if e[1] == 'put-done' and e[3] in seqs]
+            t_err = [e[0] for e in ev if e[1] == 'send_error' and e[3] == m['log'] and e[4] == 'TimeoutError']
+            if t_put and t_err and t_err[0] - t_put[0] < TTL - 1e-6:
+                return 'message %s reported as timed out %.3f s after it was stored, time-to-live %.1f' % (m['log'], t_err[0] - t_put[0], TTL)
+    return None
+
+
 def case_of(sc, which='ledger'):
     ev = run(sc)
     if which == 'c13':
         fail, kind = predicate13(sc, ev), None
+    elif which == 'c14':
+        fail, kind = predicate14(sc, ev), None
     else:
         fail, kind = predicate(sc, ev)
     sig = ('session-ledger', sc['hook'], sc['stalls'], sc['drops'], sc['put_hook'],
